@@ -188,3 +188,22 @@ func ReadFile(path string) ([]byte, error) {
 	}
 	return c.readFile(c.thread(), path)
 }
+
+// Mutex and RWMutex replace sync.Mutex / sync.RWMutex in the overlay copy of
+// file.go: a goroutine blocked on a sync mutex is not "durably blocked" for
+// testing/synctest (Wait would never return and the fake clock would stop);
+// blocked on a channel it is. Same exclusion; readers exclude each other too.
+type Mutex struct {
+	once sync.Once
+	ch   chan struct{}
+}
+
+func (m *Mutex) init() { m.once.Do(func() { m.ch = make(chan struct{}, 1) }) }
+
+func (m *Mutex) Lock()   { m.init(); m.ch <- struct{}{} }
+func (m *Mutex) Unlock() { m.init(); <-m.ch }
+
+type RWMutex struct{ Mutex }
+
+func (m *RWMutex) RLock()   { m.Lock() }
+func (m *RWMutex) RUnlock() { m.Unlock() }
